@@ -16,7 +16,7 @@ PID = "C03"
 RULE = ("per configuration (every output type x formats that together use every data source x chains incl. exclude_spawns_of x real "
         "sink states: directory absent, no permission as non-root, /dev/full (ENOSPC), unread datagram socket with a full queue): a "
         "traced dry run lists the I/O system calls issued between wrapper entry and the recording real-exec; then EVERY such call is "
-        "failed once with each plausible errno for that call (all single faults), short transfers (write/send returning 1 or 10, read returning 0 or 1), EAGAIN (and "
+        "failed once with each plausible errno for that call (all single faults; every errno also persistently from that call on, except EINTR), short transfers (write/send returning 1 or 10, read returning 0 or 1), EAGAIN (and "
         "EINTR on write/send/connect) also persistently (from that call on), and pairs of faults on different calls are sampled. Oracle: the real exec is reached exactly once with intact "
         "arguments, its (-1, EACCES) comes back, exit status 0, no signal delivered inside the window, completion within 10 s (a run "
         "over the bound is repeated three times). non-trivial = the injected fault was hit inside the window (the syscall stream "
@@ -168,7 +168,9 @@ def worker(args):
         for c in window:
             for e in ERRS[c["name"]]:
                 plans.append([(c["name"], c["ordinal"], e, False)])
-                if e in PERSISTENT or (e == "EINTR" and c["name"] in PERSISTENT_EINTR_CALLS):
+                # a missing file stays missing, a full disk stays full: every errno may persist; only an endless EINTR is implausible
+                # (libc itself retries read() on EINTR), so that one persists only on the calls the outputs issue directly
+                if e != "EINTR" or c["name"] in PERSISTENT_EINTR_CALLS:
                     plans.append([(c["name"], c["ordinal"], e, True)])
             for rv in SHORT.get(c["name"], []):
                 plans.append([(c["name"], c["ordinal"], "retval=%d" % rv, False)])
@@ -180,9 +182,9 @@ def worker(args):
             if a["name"] == b["name"]:
                 continue
             plans.append([(a["name"], a["ordinal"], rng.choice(ERRS[a["name"]]), False), (b["name"], b["ordinal"], rng.choice(ERRS[b["name"]]), False)])
-        if ctx.quick and len(plans) > 150:
+        if ctx.quick and len(plans) > 220:
             # quick tier: all calls, a rotating subset of errnos
-            keep = [p for i, p in enumerate(plans) if (i + idx) % max(1, len(plans) // 150) == 0]
+            keep = [p for i, p in enumerate(plans) if (i + idx) % max(1, len(plans) // 220) == 0]
             plans = keep
         for plan in plans:
             case = {"cfg": cfg, "plan": plan}
